@@ -97,10 +97,14 @@ PROPS["C08"] = dict(
           "EVERY step a second manager is opened on the same database, brought to the same lock state, and both answer the same query set (every issued/imported address with "
           "metadata and used flag, never-issued next addresses, AccountProperties, last addresses, names, ForEachAccount, SyncedTo, BlockHash, Birthday, watch-only) - answers must be "
           "equal and persisted key counts must equal what committed operations issued; the next committed request must return the oracle's next address. Non-trivial = a rolled-back "
-          "issuing transaction followed by a committed issue, or rename/mark-used between lookups."),
+          "issuing transaction followed by a committed issue, or rename/mark-used between lookups. Wallet-level unit: a funded wallet performs 2-10 of NewAddress, NewChangeAddress, "
+          "CreateSimpleTx (dry run and signed), FundPsbt, ImportAccountDryRun and ImportAccount (BIP84 vpub from a second seed); after each the running wallet's and a freshly opened "
+          "manager's answers (account list, names, key counts, last addresses of every account of the default scopes) must be equal, and a rolled-back or refused operation must leave "
+          "all of them unchanged."),
     assumptions=_MGR_ASSUME + ["rolled-back transactions contain address-issuing operations and account creations (what dry runs and failed commits of real callers contain); "
                                "addresses produced only inside rolled-back transactions are excluded from lookups (cache residue of never-issued addresses is outside the statement)"],
-    units=[dict(name="restart", run="^TestC08MemoryEqualsRestart$", quick=400, thorough=1500, shards_quick=2, shards_thorough=16, timeout=1500)],
+    units=[dict(name="restart", run="^TestC08MemoryEqualsRestart$", quick=400, thorough=1500, shards_quick=2, shards_thorough=16, timeout=1500),
+           dict(name="wallet", run="^TestC08WalletLevel$", quick=300, thorough=1200, shards_quick=1, shards_thorough=16, timeout=1500)],
 )
 PROPS["C07"] = dict(
     pkg="c07", level="exploration",
